@@ -529,6 +529,10 @@ class Facts:
             if b.get("parent"):
                 self.children_of.setdefault(b["parent"], []).append(b)
         self._fold_literal_consts()
+        if not self.data.get("_flag_matches_normalised"):
+            self.data["_flag_matches_normalised"] = True
+            from . import normalise
+            self.flag_matches_rewritten = normalise.normalise_flag_matches(self)
 
     def _fold_literal_consts(self):
         """A use of a crate-local `const NAME: T = <literal>;` reads as that literal (the name is a spelling of the number: `== NO_CONSUMERS`
